@@ -248,6 +248,8 @@ def unnest_order(rep, tier):
 
 def run(tier, replay=None):
   rep = common.Report(PID, tier, 'other')
+  if replay and K.replay_program_rows(rep, replay):
+    return rep.finish()
   rep.assumptions = [
       'oracle: Core/Eval.v on the ORIGINAL program; every permuted / renamed text must return that bag on SQLite',
       'List/Set element order and ArgMin/ArgMax ties are exempt (list-valued aggregate columns compared sorted)',
